@@ -1,7 +1,8 @@
-(* Model of /repo/src/bisync/{classifier,resolver,engine,state}.rs.
-   A side maps a path (N) to a regular file {size; mtime; content}; content is
-   invisible to the algorithm (it compares sizes and mtimes only) but visible to
-   the specification.  The state DB maps a path to (source row, dest row), each
+(* Model of /repo/src/bisync/{classifier,resolver,engine,state}.rs, following the two repairs
+   `fix: bisync compares the bytes of equally long files ...` and `fix: bisync records the synchronised state of
+   both sides after every run`.
+   A side maps a path (N) to a regular file {size; mtime; content}; content is an identity (equal iff the bytes
+   are equal).  The state DB maps a path to (source row, dest row), each
    (mtime, size).  Directories are skipped by the classifier and not modelled.
    Conflict copies get the names cname Source p / cname Dest p.
    fs::copy gives the target the copier's current time [now]; rename keeps mtime.
@@ -23,7 +24,7 @@ Inductive act : Type := CopyToSource | CopyToDest | DeleteFromSource | DeleteFro
 (* classifier.rs: is_modified, content_equal *)
 Definition is_modified (e : fent) (r : srec) : bool :=
   negb (N.eqb (f_size e) (s_size r)) || Z.ltb (s_mtime r) (f_mtime e).
-Definition content_equal (s d : fent) : bool := N.eqb (f_size s) (f_size d).
+Definition content_equal (s d : fent) : bool := N.eqb (f_size s) (f_size d) && N.eqb (f_content s) (f_content d).
 
 (* classify_single_path: the arms in source order, then the catch-all *)
 Definition classify (s d : option fent) (ps pd : option srec) : option change :=
@@ -124,32 +125,42 @@ Definition action_of (st : strategy) (w : world) (p : N) : option act :=
 
 Definition rec_of (e : fent) : srec := mk_srec (f_mtime e) (f_size e).
 
-(* execute_single_action followed by the matching arm of update_state *)
+(* execute_single_action: the trees change, the state database does not (it is rewritten after all actions) *)
 Definition exec (now : Z) (w : world) (p : N) (a : act) : world :=
   match a with
   | CopyToDest =>
       match w_src w p with
-      | Some s => mk_world (w_src w) (upd (w_dst w) p (Some (mk_fent (f_size s) now (f_content s))))
-                           (w_dbs w) (upd (w_dbd w) p (Some (rec_of s)))
+      | Some s => mk_world (w_src w) (upd (w_dst w) p (Some (mk_fent (f_size s) now (f_content s)))) (w_dbs w) (w_dbd w)
       | None => w
       end
   | CopyToSource =>
       match w_dst w p with
-      | Some d => mk_world (upd (w_src w) p (Some (mk_fent (f_size d) now (f_content d)))) (w_dst w)
-                           (upd (w_dbs w) p (Some (rec_of d))) (w_dbd w)
+      | Some d => mk_world (upd (w_src w) p (Some (mk_fent (f_size d) now (f_content d)))) (w_dst w) (w_dbs w) (w_dbd w)
       | None => w
       end
-  | DeleteFromSource => mk_world (upd (w_src w) p None) (w_dst w) (upd (w_dbs w) p None) (upd (w_dbd w) p None)
-  | DeleteFromDest => mk_world (w_src w) (upd (w_dst w) p None) (upd (w_dbs w) p None) (upd (w_dbd w) p None)
+  | DeleteFromSource => mk_world (upd (w_src w) p None) (w_dst w) (w_dbs w) (w_dbd w)
+  | DeleteFromDest => mk_world (w_src w) (upd (w_dst w) p None) (w_dbs w) (w_dbd w)
   | RenameConflict =>
       match w_src w p, w_dst w p with
       | Some s, Some d =>
           mk_world (upd (upd (w_src w) p None) (cname Source p) (Some s))
                    (upd (upd (w_dst w) p None) (cname Dest p) (Some d))
-                   (upd (w_dbs w) p (Some (rec_of s))) (upd (w_dbd w) p (Some (rec_of d)))
+                   (w_dbs w) (w_dbd w)
       | _, _ => w
       end
   end.
+
+(* update_state: both trees are looked at again; a path in sync gets a row per side with that side's own size and
+   mtime, a path gone from both sides loses its rows, every other path keeps the rows it had *)
+Definition record_path (w : world) (p : N) : world :=
+  match w_src w p, w_dst w p with
+  | Some s, Some d => if content_equal s d
+                      then mk_world (w_src w) (w_dst w) (upd (w_dbs w) p (Some (rec_of s))) (upd (w_dbd w) p (Some (rec_of d)))
+                      else w
+  | None, None => mk_world (w_src w) (w_dst w) (upd (w_dbs w) p None) (upd (w_dbd w) p None)
+  | _, _ => w
+  end.
+Definition record (U : list N) (w : world) : world := fold_left record_path U w.
 
 Definition is_deletion (c : change) : bool :=
   match c with DeletedFromSource | DeletedFromDest => true | _ => false end.
@@ -182,7 +193,7 @@ Definition sync_step (st : strategy) (now : Z) (w0 : world) (acc : world) (p : N
 
 Definition bisync (U : list N) (st : strategy) (maxdel : N) (now : Z) (w : world) : option world :=
   if limit_exceeded maxdel (changes_of w U) then None
-  else Some (fold_left (sync_step st now w) U w).
+  else Some (record U (fold_left (sync_step st now w) U w)).
 
 Definition actions_of (U : list N) (st : strategy) (w : world) : list (N * act) :=
   flat_map (fun p => match action_of st w p with Some a => [(p, a)] | None => [] end) U.
@@ -217,6 +228,32 @@ Definition run_step (U : list N) (cw : Z * world) (s : step) : Z * world :=
   end.
 
 Definition run_history (U : list N) (h : list step) : Z * world := fold_left (run_step U) h (0%Z, empty_world).
+
+(* histories in which the state database loses rows (a database written by an interrupted run or by an earlier version of
+   sy, which recorded one side per action): the quantifier "all prior sync states" *)
+Definition drop_row (sd : side) (p : N) (w : world) : world :=
+  match sd with
+  | Source => mk_world (w_src w) (w_dst w) (upd (w_dbs w) p None) (w_dbd w)
+  | Dest => mk_world (w_src w) (w_dst w) (w_dbs w) (upd (w_dbd w) p None)
+  end.
+(* a file written with a time stamp of the writer's choosing (cp -p, rsync -t, an unpacked archive): equal mtimes on the
+   two sides, or a time stamp older than the recorded one, become possible *)
+Definition write_at (sd : side) (p : N) (f : fent) (w : world) : world :=
+  match sd with
+  | Source => mk_world (upd (w_src w) p (Some f)) (w_dst w) (w_dbs w) (w_dbd w)
+  | Dest => mk_world (w_src w) (upd (w_dst w) p (Some f)) (w_dbs w) (w_dbd w)
+  end.
+Inductive xstep : Type :=
+| XStep (s : step)
+| XDrop (sd : side) (p : N)
+| XWriteAt (sd : side) (p : N) (size content : N) (mtime : Z).
+Definition run_xstep (U : list N) (cw : Z * world) (x : xstep) : Z * world :=
+  match x with
+  | XStep s => run_step U cw s
+  | XDrop sd p => ((fst cw + 1)%Z, drop_row sd p (snd cw))
+  | XWriteAt sd p sz c mt => ((fst cw + 1)%Z, write_at sd p (mk_fent sz mt c) (snd cw))
+  end.
+Definition run_xhistory (U : list N) (h : list xstep) : Z * world := fold_left (run_xstep U) h (0%Z, empty_world).
 
 (* sides agree on a universe: same paths, same contents *)
 Definition same_content (a b : option fent) : bool :=
